@@ -496,3 +496,42 @@ def program_variants(term, idx=0):
     if phs:
         variants.append([["out", term], ["inp", phs[0]]])
     return variants
+
+
+def sibling_pair_programs():
+    """programs whose two outputs / operands are the same operation applied to the
+    same input with ONE parameter differing, over all ordered pairs of a small
+    parameter alphabet (incl. -1/-2, whose Python hashes coincide, and 1/1.0/True)."""
+    x = ph("a", (7,), "float64")
+    m = ph("m", (3, 7), "float64")
+    P = [-3, -2, -1, 0, 1, 2, 3]
+    fams = {
+        "roll": lambda p: ["roll", x, p, 0],
+        "int-index": lambda p: ["index", m, [["s", None, None, None], p]],
+        "slice-start": lambda p: ["index", x, [["s", p, None, None]]],
+        "slice-stop": lambda p: ["index", x, [["s", None, p, None]]],
+        "scalar-sub": lambda p: ["bin", "sub", x, ["py", p]],
+        "scalar-pow": lambda p: ["bin", "pow", x, ["py", p]],
+        "scalar-mul-float": lambda p: ["bin", "mul", x, ["py", float(p)]],
+        "full": lambda p: ["bin", "add", x, ["full", [7], p, "float64"]],
+        "pad-const": lambda p: ["pad", x, 1, p],
+        "eye-k": lambda p: ["eye", 4, 5, p, "float64"],
+    }
+    out = []
+    for fam, f in fams.items():
+        for p1 in P:
+            for p2 in P:
+                if p1 == p2:
+                    continue
+                t1, t2 = f(p1), f(p2)
+                try:
+                    s1, s2 = T.np_shape_dtype(t1)[0], T.np_shape_dtype(t2)[0]
+                except Exception:  # noqa: BLE001
+                    continue
+                out.append(("sib2:" + fam, [["o1", t1], ["o2", t2]]))
+                if s1 == s2:
+                    out.append(("sib1:" + fam, [["out", ["bin", "sub", t1, t2]]]))
+    for a, b in [(1, 1.0), (1.0, True), (True, 1), (0, False), (0.0, 0), (2, 2.0)]:
+        out.append(("sib2:scalar-type", [["o1", ["bin", "mul", x, ["py", a]]], ["o2", ["bin", "mul", x, ["py", b]]]]))
+        out.append(("sib1:scalar-type", [["out", ["bin", "add", ["bin", "mul", x, ["py", a]], ["bin", "mul", x, ["py", b]]]]]))
+    return out
